@@ -1004,6 +1004,7 @@ def stepCluster (st : State) (toks : List String) : State × String :=
   | ["c.join"] => if !st.clusterUp then (st, "bad-op") else (st, "ok")
   | ["c.crash", _] => if !st.clusterUp then (st, "bad-op") else (st, "ok")
   | ["c.failelect", _] => if !st.clusterUp then (st, "bad-op") else (st, "ok")
+  | ["c.trimcrash", _] => if !st.clusterUp then (st, "bad-op") else (st, "ok")
   | _ => (st, "bad-op")
 
 def step (st : State) (line : String) : State × String :=
